@@ -15,6 +15,8 @@ PROP = dict(
         "MM.C17.C17_pinned_udp_leak",
         "MM.C17.C17_count_matches",
         "MM.C17.C17_partial",
+        "MM.C17.C17_failed_open_keeps_count",
+        "MM.C17.C17_limit",
         "MM.C17.C17_refuted",
         "MM.C17.C17_refuted_relay_orphan",
     ],
@@ -22,7 +24,7 @@ PROP = dict(
     chunk=3000,
     rule="engine c17: histories on the real exit.Handler and forward.Handler (recording StreamWriter, real loopback TCP destination): opens "
          "from several peers with per-peer allocator ids (collisions) or globally distinct ids, data under the right / a foreign session key, "
-         "close, reset, destination EOF, double close, re-open of a closed id; ConnectionCount() and the map keys are printed after every op. "
+         "close, reset, destination EOF, double close, re-open of a closed id, opens that must be refused of every kind (all-zero / low-order ephemeral key, destination not allowed, unresolvable domain, dial refused, unknown forward key, MaxConnections=6 reached) under fresh and live ids; ConnectionCount() and the map keys are printed after every op. "
          "engine c17r: the relay dispatch engine of C16 (tcp/udp/icmp opens, frames from both legs, disconnects, final teardown + `end`). "
          "non-trivial = the op changed a table/map or produced an event",
     nontrivial=lambda op, out: not op.startswith(("reset", "t.both", "t.down")) and ("ev=[]" not in out) and ("sent=[] " not in out or op.startswith(("disc", "close", "rst", "err", "t."))),
